@@ -212,6 +212,65 @@ func (g *Graph) firstChainEndless() (endless bool, ok bool) {
 	return true, true
 }
 
+// specDetect is the specification-side reading of the finding: the detector as it IS (first element
+// only), for graphs whose maps have at most one entry.
+func (g *Graph) specDetect(v Val) bool {
+	visited := map[int]bool{}
+	for depth := 0; ; depth++ {
+		if depth > types.MAX_STRUCT_DEPTH {
+			return true
+		}
+		if !v.isRef() {
+			return false
+		}
+		o := g.Objs[v.Addr]
+		if o.Kind == "map" {
+			if visited[v.Addr] {
+				return true
+			}
+			visited[v.Addr] = true
+			if len(o.Vals) == 0 {
+				return false
+			}
+			v = o.Vals[0]
+			continue
+		}
+		if len(o.Items) == 0 {
+			return false
+		}
+		if visited[v.Addr] {
+			return true
+		}
+		visited[v.Addr] = true
+		v = o.Items[0]
+	}
+}
+
+// specBuild predicts BuildParamToNative given that detector: "ECircular", "EBadType", "" (success) or
+// "diverges" (a value on the current call stack is entered again without the detector firing: the
+// finding class). Order-free graphs only.
+func (g *Graph) specBuild(v Val, onStack map[int]bool) string {
+	if g.specDetect(v) {
+		return "ECircular"
+	}
+	switch v.K {
+	case "map", "interop":
+		return "EBadType"
+	case "arr", "struct":
+		if onStack[v.Addr] {
+			return "diverges"
+		}
+		onStack[v.Addr] = true
+		defer delete(onStack, v.Addr)
+		for _, c := range g.Objs[v.Addr].Items {
+			if r := g.specBuild(c, onStack); r != "" {
+				return r
+			}
+		}
+	}
+	return ""
+}
+
 func (d *driver) queueCyclic(g Graph, kind string) {
 	// Serialize starts from an almost full sink, so that the size limit ends the recursion after a
 	// few levels (with an empty sink it takes ~2*10^5 nested calls, see queueWitness)
@@ -248,6 +307,27 @@ func (d *driver) queueWitness(full bool) {
 			in:    input{Mode: "graph", G: &g, Prefill: 0, Kind: "witness-empty-sink"},
 			probe: Probe{G: g, Entry: "Serialize", Prefill: 0, BigStack: true},
 		})
+	}
+}
+
+// queueNestedFirstCycles: a first-element cycle that starts below a NON-first element of the root:
+// the outermost detector call does not see it, the detector call of the nested element does. On
+// every run, for each container kind of root and of cycle member.
+func (d *driver) queueNestedFirstCycles() {
+	for _, rootKind := range []string{"arr", "struct"} {
+		for _, memberKind := range []string{"arr", "struct"} {
+			for _, n := range []int{1, 2} {
+				g := Graph{Objs: []Obj{{Kind: rootKind, Items: []Val{vInt(7), vRef(memberKind, 1), vBool(true)}}}, Root: vRef(rootKind, 0)}
+				for i := 1; i <= n; i++ {
+					next := i + 1
+					if i == n {
+						next = 1
+					}
+					g.Objs = append(g.Objs, Obj{Kind: memberKind, Items: []Val{vRef(memberKind, next), vInt(int64(i))}})
+				}
+				d.queueCyclic(g, "nested-first-cycle")
+			}
+		}
 	}
 }
 
@@ -291,6 +371,10 @@ func (d *driver) runPending() {
 		}
 		// ----- oracle: a value with a reachable cycle is refused with an error -----
 		switch {
+		case (r.Crashed || r.Timeout) && entry == "BuildParamToNative" && chainOK && g.orderFree() && g.specBuild(g.Root, map[int]bool{}) != "diverges":
+			// not the known finding: with the detector as it is, this call should have returned
+			c.Fail("cycle:detectable:BuildParamToNative", "BuildParamToNative did not return on a cyclic value that the first-element detector does refuse at some nested call", p.in,
+				map[string]interface{}{"entry": entry, "crashed": r.Crashed, "timeout": r.Timeout, "stderr": r.Detail, "expected": g.specBuild(g.Root, map[int]bool{})}, "an error result")
 		case r.Crashed || r.Timeout:
 			cls := fmt.Sprintf("cycle:%s:%s", pos, entry)
 			c.Fail(cls, "a call on a value with a reference cycle did not return (the process died: "+r.Detail+")", p.in,
@@ -796,6 +880,63 @@ func (d *driver) structuredBytes() ([]byte, string) {
 	}
 }
 
+// boundaryBytes: the decoder's limits, probed on every run (depth MAX_COUNT, MAX_ARRAY_SIZE elements,
+// MAX_INT_SIZE magnitude bytes), for each container kind.
+func (d *driver) boundaryBytes() {
+	nest := func(link []byte, k int, leaf []byte) []byte {
+		var b []byte
+		for i := 0; i < k; i++ {
+			b = append(b, link...)
+		}
+		return append(b, leaf...)
+	}
+	links := [][]byte{{0x80, 0x01}, {0x81, 0x01}, {0x82, 0x01, 0x01, 0x01}} // array / struct / map{true: .}
+	for li, link := range links {
+		for _, k := range []int{types.MAX_COUNT, types.MAX_COUNT + 1} {
+			d.doBytes(nest(link, k, []byte{0x01, 0x01}), "depth-boundary")
+			if li == 0 {
+				// innermost container empty: one more level is representable
+				d.doBytes(nest(link, k, []byte{0x80, 0x00}), "depth-boundary")
+			}
+		}
+	}
+	for _, tag := range []byte{0x80, 0x81} {
+		for _, n := range []int{constants.MAX_ARRAY_SIZE, constants.MAX_ARRAY_SIZE + 1} {
+			b := append([]byte{tag}, varuint(uint64(n))...)
+			for i := 0; i < n; i++ {
+				b = append(b, 0x01, byte(i&1))
+			}
+			d.doBytes(b, "array-size-boundary")
+		}
+	}
+	// a map is not limited in size
+	{
+		n := constants.MAX_ARRAY_SIZE + 1
+		b := append([]byte{0x82}, varuint(uint64(n))...)
+		for i := 0; i < n; i++ {
+			b = append(b, 0x00, 0x02, byte(i), byte(i>>8), 0x01, 0x01)
+		}
+		d.doBytes(b, "map-size")
+	}
+	for _, n := range []int{constants.MAX_INT_SIZE, constants.MAX_INT_SIZE + 1} {
+		for _, top := range []byte{0x01, 0x7f, 0x80, 0xff} {
+			body := make([]byte, n)
+			for i := range body {
+				body[i] = byte(0x11 * (i%7 + 1))
+			}
+			body[n-1] = top
+			d.doBytes(append(append([]byte{0x02}, varuint(uint64(n))...), body...), "int-size-boundary")
+			// with a sign byte: n magnitude bytes, n+1 encoded bytes
+			sign := byte(0x00)
+			if top >= 0x80 {
+				sign = 0xff
+			}
+			body2 := append(append([]byte{}, body...), sign)
+			d.doBytes(append(append([]byte{0x02}, varuint(uint64(n+1))...), body2...), "int-size-boundary")
+		}
+	}
+}
+
 // ---------- size-limit boundary (implementation only; megabyte values are not sent to Coq) ----------
 
 func (d *driver) sizeBoundary() {
@@ -871,7 +1012,9 @@ func Run(c *hx.Ctx) {
 	}
 	// the documented witness, on every run
 	d.queueWitness(!c.Quick())
+	d.queueNestedFirstCycles()
 	d.sizeBoundary()
+	d.boundaryBytes()
 
 	phase("size-boundary")
 	// key images
